@@ -7,7 +7,7 @@ from .gen import rand_bytes
 from .ref import eip712
 from .txgen import hex_case
 
-STRUCT_NAMES = ["Mail", "Person", "Asset", "a", "A", "B", "b", "Zed", "_x", "Foo2", "Foo10", "Foo", "Foobar", "bytes0", "uint9", "int264",
+STRUCT_NAMES = ["uint", "int", "fixed", "byte", "Mail", "Person", "Asset", "a", "A", "B", "b", "Zed", "_x", "Foo2", "Foo10", "Foo", "Foobar", "bytes0", "uint9", "int264",
                 "bytes33", "uint320", "Z", "z", "aa", "Aa", "aA", "M", "m", "Node", "Tree", "Order", "Permit", "EIP712Domainx", "Bool",
                 "Address", "String", "Bytes", "uint256x", "int7", "bytes64", "T1", "T2", "T10", "C", "c", "_", "$t", "Ab", "AB",
                 "Foo$", "Foo$Bar", "Mail$", "Mail$Box", "a$", "A$b", "Token", "Token$Meta", "T1$", "$", "$$"]
@@ -53,7 +53,7 @@ def rand_suffix(rng, allow_fixed_positive=True, maxdepth=3):
     return s
 
 
-def rand_graph(rng, nstructs=None, shape=None):
+def rand_graph(rng, nstructs=None, shape=None, domain_ref=False):
     """Returns (types dict name -> [(member, type)], primary). Struct i may embed struct j directly (or in positive fixed arrays)
     only if j > i; through dynamic arrays or [0] it may reference any struct, itself included (recursion)."""
     n = nstructs or rng.choice([1, 2, 2, 3, 3, 4, 5, 6, 8])
@@ -98,10 +98,14 @@ def rand_graph(rng, nstructs=None, shape=None):
             members.append((mn, ts))
         types[name] = members
     primary = names[0] if rng.random() < 0.8 else rng.choice(names)
+    if domain_ref and rng.random() < 0.06:
+        # a message struct that references the domain struct type itself
+        host = rng.choice(names)
+        types[host] = types[host] + [("zdomain", "EIP712Domain" + rng.choice(["", "[]", "[1]", "[0]", "[][]"]))]
     if shape == "repeat":
         # the same dependency referenced 2-3 times at chosen positions among other references
         if n < 3:
-            return rand_graph(rng, 3, shape)
+            return rand_graph(rng, 3, shape, domain_ref)
         p, dep, other = names[0], names[1], names[2]
         pos = rng.choice(["before", "between", "after"])
         refs = {"before": [dep, dep, other], "between": [other, dep, dep, other], "after": [other, dep, dep]}[pos]
@@ -168,6 +172,10 @@ def rand_string(rng):
         return ""
     if r < 0.6:
         return "".join(chr(rng.randint(0x20, 0x7e)) for _ in range(rng.randint(1, 40)))
+    if rng.random() < 0.12:
+        # text that looks like a value of another type: it is still a string and hashes as its UTF-8 bytes
+        return rng.choice(["0x", "0x00", "0xdeadbeef", "0X12", "0x" + "ab" * 20, "0x" + "00" * 32, "true", "false", "123", "-5", "1.5", "[]", "{}", "null",
+                           "0xZZ", "0x0", " 0x00", "uint256", "\\u0041", "\\n", "%s", "0x" + "Ab" * 3])
     pool = ["\u00e9", "\u4e2d", "\U0001f600", "\n", "\t", "\"", "\\", "\u0000", "\u200b", "a", " ", "\u05d0", "\ud7ff", "\uffff", "/", "\u007f"]
     return "".join(rng.choice(pool) for _ in range(rng.randint(1, 20)))
 
@@ -282,7 +290,7 @@ def rand_document(rng, shape=None, domain_fields=None, depth=4):
 
 
 def _rand_document(rng, shape, domain_fields, depth):
-    types, primary = rand_graph(rng, shape=shape)
+    types, primary = rand_graph(rng, shape=shape, domain_ref=True)
     dom = domain_fields if domain_fields is not None else rng.choice(domain_subsets())
     types = dict(types)
     types["EIP712Domain"] = list(dom)
